@@ -1,4 +1,5 @@
 from fw import PropertyCheck
+import fam_world
 import fam_guards
 
 
@@ -8,9 +9,11 @@ class Check(PropertyCheck):
             "rates; deposits binary-searched to the largest accepted value for the given reserves (+-1,+2), both "
             "orientations; zero deposits/reserves; random magnitudes.  Non-trivial = tolerance given and the guard "
             "decided (Ok or MaxSlippage).  Distinct by input.")
+    rule_world = 'plus world histories'
     modelled = ["Decimal -> Decimal256 conversion (through text) is modelled as value-preserving; C18 covers it",
                 "system level (which reserves the pair passes to the guard) is covered by the world family"]
     assumptions = ["deposits and reserves are 128-bit"]
 
     def families(self, rng, tier):
-        return [("guards.assert_slippage_tolerance", fam_guards.slippage_cases(rng, tier))]
+        return [("guards.assert_slippage_tolerance", fam_guards.slippage_cases(rng, tier)),
+                ("world.guards", fam_world.guard_histories(rng, tier))]
